@@ -9,16 +9,128 @@ import Fundraising.Proofs.ExecLemmas
 namespace Fundraising
 open Fundraising.Gen Fundraising.Go
 
+/-- the hook dispatcher does not look at the module state: it commutes with any change of `s` -/
+private theorem dispatchTo_withS (name : String) (args : List String) (is : List Nat) (c : Ctx) (s' : Core) :
+    dispatchTo name args is { c with s := s' } =
+      match dispatchTo name args is c with
+      | .ok c' => .ok { c' with s := s' }
+      | .error e => .error e := by
+  induction is generalizing c with
+  | nil => simp [dispatchTo]
+  | cons i is ih =>
+    unfold dispatchTo
+    by_cases hf : c.ctl.failhook = some (name, i)
+    · simp [hf, Ctx.fail]
+    · simp only [hf, if_false]
+      exact ih { c with effs := c.effs ++ [Eff.hook i name args] }
+
+private theorem hook_withS (c : Ctx) (name : String) (args : List String) (s' : Core) :
+    Ctx.hook { c with s := s' } name args =
+      match c.hook name args with
+      | .ok c' => .ok { c' with s := s' }
+      | .error e => .error e := by
+  unfold Ctx.hook
+  exact dispatchTo_withS name args _ c s'
+
+/-- a bank call does not touch the block time -/
+private theorem bankCall_now {c c' : Ctx} {k : XKind} {src dst : Addr} {coins : List Coin}
+    (h : c.bankCall k src dst coins = .ok c') : c'.s.now = c.s.now := by
+  obtain ⟨_, b, _, rfl⟩ := bankCall_ok h
+  rfl
+
 /-- **CreateFixedPriceAuction.**  `hacc`: `ValidateBasic` accepted the auctioneer address. -/
 theorem tie_CreateFixedPriceAuction (c : Ctx) (m : CreateMsg) (hty : m.type = .fixed) (hacc : validAcc m.auctioneer = true) :
     createAuction c m =
       Go.runPlanNew c ({ a := default } : AView) (Gen.CreateFixedPriceAuction m c.s.now (c.s.views.length : Int)).2 := by
-  sorry
-
+  unfold createAuction Gen.CreateFixedPriceAuction
+  simp only [hty, hacc, tie_ShouldAuctionStarted, newBaseAuction, newFixedPriceAuction, sellingCoin, index,
+    Int.toNat_natCast, List.nil_append, List.cons_append, apply_ite Prod.snd, apply_ite (runPlanNew c _)]
+  by_cases h1 : c.s.now > m.endTime
+  · simp [h1, runPlanNew, Ctx.check, Ctx.fail, bind, Except.bind, pure, Except.pure]
+  by_cases h2 : (m.schedules.length : Int) > 100
+  · have : ¬ m.schedules.length ≤ 100 := by omega
+    simp [h1, h2, this, runPlanNew, Ctx.check, Ctx.fail, bind, Except.bind, pure, Except.pure]
+  have h2' : m.schedules.length ≤ 100 := by omega
+  simp only [h1, h2, h2', runPlanNew, Ctx.check, runEffs_cons, runEffs_nil, applyEff]
+  have hargs0 : createHookArgs m none =
+      [rAcc m.auctioneer, rInt m.startPrice, rNat m.sellDenom, rInt m.sellAmt, rNat m.payDenom] ++
+        rSchedules m.schedules ++ [rInt m.startTime, rInt m.endTime] := by
+    simp [createHookArgs, hty]
+  have hargs1 : createHookArgs m (some c.s.views.length) =
+      [rNat c.s.views.length, rAcc m.auctioneer, rInt m.startPrice, rNat m.sellDenom, rInt m.sellAmt, rNat m.payDenom] ++
+        rSchedules m.schedules ++ [rInt m.startTime, rInt m.endTime] := by
+    simp [createHookArgs, hty]
+  simp only [hargs0, hargs1, hook_withS, Int.toNat_natCast, Int.toNat_zero, List.getD_cons_zero, List.cons_append, List.nil_append]
+  cases hfee : c.bankCall XKind.pool (Addr.user m.auctioneer) Addr.pool c.s.params.creationFee with
+  | error e => simp [bind, Except.bind]
+  | ok c1 =>
+    have n1 := bankCall_now hfee
+    cases hmk : mkCoins c1 m.sellDenom m.sellAmt with
+    | error e => simp [hmk, bind, Except.bind, pure, Except.pure]
+    | ok coins =>
+      cases hsend : c1.bankCall XKind.send (Addr.user m.auctioneer) (Addr.sell c.s.views.length) coins with
+      | error e => simp [hmk, hsend, bind, Except.bind, pure, Except.pure]
+      | ok c2 =>
+        have n2 := bankCall_now hsend
+        cases hb : c2.hook "BeforeFixedPriceAuctionCreated" (rAcc m.auctioneer :: rInt m.startPrice :: rNat m.sellDenom :: rInt m.sellAmt :: rNat m.payDenom ::
+                (rSchedules m.schedules ++ [rInt m.startTime, rInt m.endTime])) with
+        | error e => simp [hmk, hsend, hb, bind, Except.bind, pure, Except.pure]
+        | ok c3 =>
+          cases ha : c3.hook "AfterFixedPriceAuctionCreated" (rNat c.s.views.length :: rAcc m.auctioneer :: rInt m.startPrice :: rNat m.sellDenom :: rInt m.sellAmt ::
+                  rNat m.payDenom :: (rSchedules m.schedules ++ [rInt m.startTime, rInt m.endTime])) with
+          | error e => simp [hmk, hsend, hb, ha, bind, Except.bind, pure, Except.pure]
+          | ok c4 =>
+            have s4 := (hook_ok ha).1
+            simp [hmk, hsend, hb, ha, bind, Except.bind, pure, Except.pure, s4, n1, n2]
+            split <;> rfl
 /-- **CreateBatchAuction.** -/
 theorem tie_CreateBatchAuction (c : Ctx) (m : CreateMsg) (hty : m.type = .batch) (hacc : validAcc m.auctioneer = true) :
     createAuction c m =
       Go.runPlanNew c ({ a := default } : AView) (Gen.CreateBatchAuction m c.s.now (c.s.views.length : Int)).2 := by
-  sorry
+  unfold createAuction Gen.CreateBatchAuction
+  simp only [hty, hacc, tie_ShouldAuctionStarted, newBaseAuction, newBatchAuction, sellingCoin, index,
+    Int.toNat_natCast, List.nil_append, List.cons_append, apply_ite Prod.snd, apply_ite (runPlanNew c _)]
+  by_cases h1 : c.s.now > m.endTime
+  · simp [h1, runPlanNew, Ctx.check, Ctx.fail, bind, Except.bind, pure, Except.pure]
+  by_cases h2 : (m.schedules.length : Int) > 100
+  · have : ¬ m.schedules.length ≤ 100 := by omega
+    simp [h1, h2, this, runPlanNew, Ctx.check, Ctx.fail, bind, Except.bind, pure, Except.pure]
+  have h2' : m.schedules.length ≤ 100 := by omega
+  by_cases h3 : (m.maxExt : Int) > 30
+  · have : ¬ m.maxExt ≤ 30 := by omega
+    simp [h1, h2, h2', h3, this, runPlanNew, Ctx.check, Ctx.fail, bind, Except.bind, pure, Except.pure]
+  have h3' : m.maxExt ≤ 30 := by omega
+  simp only [h1, h2, h2', h3, h3', runPlanNew, Ctx.check, runEffs_cons, runEffs_nil, applyEff]
+  have hargs0 : createHookArgs m none =
+      [rAcc m.auctioneer, rInt m.startPrice, rInt m.minBid, rNat m.sellDenom, rInt m.sellAmt, rNat m.payDenom] ++
+        rSchedules m.schedules ++ [rNat m.maxExt, rInt m.rate, rInt m.startTime, rInt m.endTime] := by
+    simp [createHookArgs, hty]
+  have hargs1 : createHookArgs m (some c.s.views.length) =
+      [rNat c.s.views.length, rAcc m.auctioneer, rInt m.startPrice, rInt m.minBid, rNat m.sellDenom, rInt m.sellAmt, rNat m.payDenom] ++
+        rSchedules m.schedules ++ [rNat m.maxExt, rInt m.rate, rInt m.startTime, rInt m.endTime] := by
+    simp [createHookArgs, hty]
+  simp only [hargs0, hargs1, hook_withS, Int.toNat_natCast, Int.toNat_zero, List.getD_cons_zero, List.cons_append, List.nil_append]
+  cases hfee : c.bankCall XKind.pool (Addr.user m.auctioneer) Addr.pool c.s.params.creationFee with
+  | error e => simp [bind, Except.bind]
+  | ok c1 =>
+    have n1 := bankCall_now hfee
+    cases hmk : mkCoins c1 m.sellDenom m.sellAmt with
+    | error e => simp [hmk, bind, Except.bind, pure, Except.pure]
+    | ok coins =>
+      cases hsend : c1.bankCall XKind.send (Addr.user m.auctioneer) (Addr.sell c.s.views.length) coins with
+      | error e => simp [hmk, hsend, bind, Except.bind, pure, Except.pure]
+      | ok c2 =>
+        have n2 := bankCall_now hsend
+        cases hb : c2.hook "BeforeBatchAuctionCreated" (rAcc m.auctioneer :: rInt m.startPrice :: rInt m.minBid :: rNat m.sellDenom :: rInt m.sellAmt :: rNat m.payDenom ::
+                (rSchedules m.schedules ++ [rNat m.maxExt, rInt m.rate, rInt m.startTime, rInt m.endTime])) with
+        | error e => simp [hmk, hsend, hb, bind, Except.bind, pure, Except.pure]
+        | ok c3 =>
+          cases ha : c3.hook "AfterBatchAuctionCreated" (rNat c.s.views.length :: rAcc m.auctioneer :: rInt m.startPrice :: rInt m.minBid :: rNat m.sellDenom :: rInt m.sellAmt ::
+                  rNat m.payDenom :: (rSchedules m.schedules ++ [rNat m.maxExt, rInt m.rate, rInt m.startTime, rInt m.endTime])) with
+          | error e => simp [hmk, hsend, hb, ha, bind, Except.bind, pure, Except.pure]
+          | ok c4 =>
+            have s4 := (hook_ok ha).1
+            simp [hmk, hsend, hb, ha, bind, Except.bind, pure, Except.pure, s4, n1, n2]
+            split <;> rfl
 
 end Fundraising
